@@ -29,6 +29,19 @@ TimeOK(c, now, k) ==
   /\ (Present(c.exp) => TLeq(TShift(now, 0 - k), Val(c.exp)))     \* exp >= now - k*L
   /\ (Present(c.nbf) => TLeq(Val(c.nbf), TShift(now, k)))         \* nbf <= now + k*L
 
+\* ---- the claims builder (RegisteredClaims::new / from_issuer / for_audience / for_subject / with_token_id)
+\* new(now, d): expires d after now, not valid before now, issued at now, nothing else;  each setter sets exactly its field
+NewClaims(now, k) == [exp |-> <<TShift(now, k)>>, nbf |-> <<now>>, iat |-> <<now>>,
+                      iss |-> << >>, sub |-> << >>, aud |-> << >>, jti |-> << >>]
+RECURSIVE Built(_, _)
+Built(c, setters) ==
+  IF setters = << >> THEN c
+  ELSE LET h == Head(setters) IN
+       Built(CASE h[1] = "iss" -> [c EXCEPT !.iss = <<h[2]>>] [] h[1] = "sub" -> [c EXCEPT !.sub = <<h[2]>>]
+               [] h[1] = "aud" -> [c EXCEPT !.aud = <<h[2]>>] [] h[1] = "jti" -> [c EXCEPT !.jti = <<h[2]>>], Tail(setters))
+\* what a fresh token is good for: valid exactly from its issue time to its expiry (both inclusive)
+BuiltValidAt(now, k, t) == TLeq(now, t) /\ TLeq(t, TShift(now, k))
+
 RECURSIVE Accepts(_, _)
 Accepts(e, c) ==
   CASE e.op = "time" -> TimeOK(c, e.now, 0)
